@@ -2076,13 +2076,22 @@ pub mod verif {
         pub infos: Vec<(bool, bool, Vec<String>)>,
     }
 
+    /// `DFA::transition`, a lookup that panics is reported as "no edge" (the dump must not die on a
+    /// malformed table; the decoder run on such an automaton shows the panic itself)
+    fn transition_checked<T>(dfa: &DFA<T>, state: usize, symbol: u8) -> Option<DFAState> {
+        std::panic::catch_unwind(std::panic::AssertUnwindSafe(|| {
+            dfa.transition(DFAState::verif_from_index(state), symbol)
+        }))
+        .unwrap_or(None)
+    }
+
     fn dump<T: fmt::Debug>(dfa: &DFA<MatcherTag<T>>) -> DfaDump {
         let size = dfa.size();
         let mut transitions = Vec::new();
         let mut infos = Vec::new();
         for state in 0..size {
             for symbol in 0..=255u8 {
-                if let Some(to) = dfa.transition(DFAState::verif_from_index(state), symbol) {
+                if let Some(to) = transition_checked(dfa, state, symbol) {
                     transitions.push((state, symbol, to.verif_index()));
                 }
             }
@@ -2117,8 +2126,7 @@ pub mod verif {
                 let mut infos = Vec::new();
                 for state in 0..size {
                     for symbol in 0..=255u8 {
-                        if let Some(to) = dfa.transition(DFAState::verif_from_index(state), symbol)
-                        {
+                        if let Some(to) = transition_checked(dfa, state, symbol) {
                             transitions.push((state, symbol, to.verif_index()));
                         }
                     }
